@@ -429,22 +429,34 @@ fn serialise_router_advertisement(a: &RtrAdvertisement) -> Vec<u8> {
             }
             NDOptionValue::RecursiveDnsServers((lifetime, servers)) => {
                 use std::convert::TryFrom as _;
+                /* The length octet counts units of 8 octets, so one option carries at most
+                 * 127 addresses.
+                 */
+                let count = std::cmp::min(servers.len(), 127);
                 v.serialise(RDNSS.0);
-                v.serialise(u8::try_from(1 + servers.len() * 2).unwrap());
+                v.serialise((1 + count * 2) as u8);
                 v.serialise(0_u16); // Reserved / Padding.
                 v.serialise(u32::try_from(lifetime.as_secs()).unwrap_or(u32::MAX));
-                for server in servers {
+                for server in servers.iter().take(count) {
                     v.serialise(server);
                 }
             }
             NDOptionValue::DnsSearchList((lifetime, suffixes)) => {
                 let mut dnssl = Serialise::default();
                 for suffix in suffixes {
+                    let mut name = Serialise::default();
                     for label in suffix.split('.') {
-                        dnssl.serialise(label.len() as u8);
-                        dnssl.serialise(label);
+                        name.serialise(label.len() as u8);
+                        name.serialise(label);
                     }
-                    dnssl.serialise(0_u8);
+                    name.serialise(0_u8);
+                    /* The length octet counts units of 8 octets and the header takes one:
+                     * leave out the names that no longer fit.
+                     */
+                    if dnssl.v.len() + name.v.len() > 254 * 8 {
+                        break;
+                    }
+                    dnssl.serialise(&name.v);
                 }
                 // Pad with 0x00 to the full size.
                 while dnssl.v.len() % 8 != 0 {
